@@ -21,6 +21,7 @@ import (
 	"io"
 	"net"
 	"os"
+	"path/filepath"
 	"sort"
 	"strconv"
 	"strings"
@@ -393,7 +394,11 @@ func newE2ECli() *e2eCli {
 				if b == "" {
 					b = "-"
 				}
-				cl.frames = append(cl.frames, e2eDn{f.id, f.status, hx.Tok(h), hx.Tok(b)})
+				st := f.status
+				if f.typ != 0 || f.cmd != 2 { // not an rpc response at all
+					st = 65535
+				}
+				cl.frames = append(cl.frames, e2eDn{f.id, st, hx.Tok(h), hx.Tok(b)})
 			}
 			cl.mu.Unlock()
 		}
@@ -718,6 +723,127 @@ func e2eGenPlan(r *hx.Rng) *e2ePlan {
 	return p
 }
 
+// e2eParsePlan reads a plan back from its case tokens `e2e <warm> <did:tok:kind,…> <script>` (corpus / direct replay).
+func e2eParsePlan(toks []string) (*e2ePlan, bool) {
+	if len(toks) != 4 || toks[0] != "e2e" {
+		return nil, false
+	}
+	p := &e2ePlan{}
+	var err error
+	if p.extraWarm, err = strconv.Atoi(toks[1]); err != nil || p.extraWarm < 0 || p.extraWarm > 50 {
+		return nil, false
+	}
+	for _, t := range strings.Split(toks[2], ",") {
+		f := strings.Split(t, ":")
+		if len(f) != 3 || f[2] == "" {
+			return nil, false
+		}
+		d, e1 := strconv.ParseUint(f[0], 10, 32)
+		k, e2 := strconv.Atoi(f[1])
+		if e1 != nil || e2 != nil {
+			return nil, false
+		}
+		q := e2eReq{did: uint32(d), tok: k, kind: f[2][0]}
+		switch q.kind {
+		case 'o', 'g', 't':
+			if len(f[2]) != 1 {
+				return nil, false
+			}
+		case 'r':
+			if len(f[2]) != 3 || f[2][1] < '0' || f[2][1] > '4' {
+				return nil, false
+			}
+			q.silent = int(f[2][1] - '0')
+			q.final = f[2][2] == 'a'
+		default:
+			return nil, false
+		}
+		p.reqs = append(p.reqs, q)
+	}
+	if len(p.reqs) > 18 {
+		return nil, false
+	}
+	num := func(x string) (int, bool) { n, err := strconv.Atoi(x); return n, err == nil && n >= 0 }
+	for _, t := range strings.Split(toks[3], ",") {
+		if t == "" {
+			return nil, false
+		}
+		st := e2eStep{op: t[0]}
+		arg := t[1:]
+		switch st.op {
+		case 'x':
+		case 'S':
+			for _, x := range strings.Split(arg, ".") {
+				k, ok := num(x)
+				if !ok || k >= len(p.reqs) {
+					return nil, false
+				}
+				st.ks = append(st.ks, k)
+			}
+		case 'a', 'd', 'w':
+			f := strings.Split(arg, ".")
+			if len(f) != 2 {
+				return nil, false
+			}
+			k, ok1 := num(f[0])
+			tr, ok2 := num(f[1])
+			if !ok1 || !ok2 || k >= len(p.reqs) || tr < 1 {
+				return nil, false
+			}
+			st.k, st.try = k, tr
+		case 'e':
+			k, ok := num(arg)
+			if !ok || k >= len(p.reqs) {
+				return nil, false
+			}
+			st.k = k
+		case 'j':
+			id, err := strconv.ParseUint(arg, 10, 32)
+			if err != nil {
+				return nil, false
+			}
+			st.id = uint32(id)
+		default:
+			return nil, false
+		}
+		p.steps = append(p.steps, st)
+	}
+	return p, true
+}
+
+// e2eCorpus: plans of minimised past failures (corpus/C02/*.txt), run before the generated ones.
+func e2eCorpus() []*e2ePlan {
+	files, _ := filepath.Glob(filepath.Join(os.Getenv("VERIF_CORPUS"), "C02", "*.txt"))
+	if len(files) == 0 {
+		if exe, err := os.Executable(); err == nil {
+			// check copies the binary into <verif>/.run/<pid>/
+			files, _ = filepath.Glob(filepath.Join(filepath.Dir(exe), "..", "..", "corpus", "C02", "*.txt"))
+		}
+	}
+	sort.Strings(files)
+	var out []*e2ePlan
+	for _, f := range files {
+		b, err := os.ReadFile(f)
+		if err != nil {
+			continue
+		}
+		for _, line := range strings.Split(string(b), "\n") {
+			line = strings.TrimSpace(line)
+			if line == "" || strings.HasPrefix(line, "#") {
+				continue
+			}
+			toks := strings.Fields(strings.Split(line, " => ")[0])
+			if len(toks) > 0 && toks[0] == "C02" {
+				toks = toks[1:]
+			}
+			if p, ok := e2eParsePlan(toks); ok {
+				out = append(out, p)
+			}
+		}
+	}
+	return out
+}
+
 func seq(n int) []int {
 	out := make([]int, n)
 	for i := range out {
@@ -1032,11 +1158,22 @@ func e2eLinearize(logv []e2eLogEnt) []string {
 
 func runE2E(c *hx.Ctx, rng *hx.Rng) {
 	e2eSetup()
-	n := c.N(420, 2600)
-	plans := make([]*e2ePlan, n)
-	for i := range plans {
-		plans[i] = e2eGenPlan(rng.Fork())
+	plans := e2eCorpus()
+	for range plans {
+		c.Count("e2e.corpus")
 	}
+	if len(c.Args) == 4 && c.Args[0] == "e2e" { // direct replay of one plan: mosnh C02 e2e <warm> <reqs> <script>
+		p, ok := e2eParsePlan(c.Args)
+		if !ok {
+			panic("bad e2e plan")
+		}
+		plans = []*e2ePlan{p}
+	} else {
+		for i := 0; i < c.N(420, 2600); i++ {
+			plans = append(plans, e2eGenPlan(rng.Fork()))
+		}
+	}
+	n := len(plans)
 	results := make([]e2eResult, n)
 	skews := make([]int, n)
 	var wg sync.WaitGroup
@@ -1062,6 +1199,11 @@ func runE2E(c *hx.Ctx, rng *hx.Rng) {
 	}
 	wg.Wait()
 	for i, p := range plans {
+		if results[i].anomaly != "" && results[i].anomaly != "warmup-failed" {
+			// the timing of this run did not follow the plan three times in a row: the schedule handed to the model is
+			// not trustworthy, only the property predicate is evaluated on what the client received
+			results[i].impl += " skew:" + results[i].anomaly
+		}
 		c.Emit("C02", p.caseToks(), results[i].impl)
 		c.Count(fmt.Sprintf("e2e.n=%02d", len(p.reqs)))
 		for _, q := range p.reqs {
